@@ -412,6 +412,13 @@ def eta_expand_tail_results(crates):
     return n
 
 
+def _crate_of(bj):
+    """crate a body belongs to: `melstf::..` or `<melstf::X as melstf::T>::f` (a trait impl is attributed to the crate of its first path)"""
+    n = norm_name(bj["name"])
+    m = __import__("re").search(r"([A-Za-z_][A-Za-z0-9_]*)::", n)
+    return m.group(1) if m else n
+
+
 def inline_unknown(crates, known):
     """crates: list of per-crate fact dicts (mutated in place).  Returns {helper id: [caller ids]}"""
     if not known:
@@ -434,6 +441,27 @@ def inline_unknown(crates, known):
         same_last_missing = [m for m in missing if m.rsplit("::", 1)[-1] == last]
         if len(cands) == 1 and len(same_last_missing) == 1:
             aliases[k] = cands[0]["id"]
+    # a known function that was renamed (free helper -> method of a private extension trait, a more telling name): the old path is gone, and exactly one
+    # function the rules do not know has the same parameter types in the same crate, while no other missing function has them.  The rules then read the
+    # renamed function under its old name (and still decide its content: a wrong guess can only fail them).
+    sigs = known.get("sigs", {})
+    import re as _re
+
+    def ptypes(bj):
+        try:
+            return [_re.sub(r"'[a-z_0-9]+ ?", "", bj["locals"][i]["ty"]) for i in range(1, bj["arg_count"] + 1)]
+        except Exception:
+            return None
+    taken = set(aliases.values())
+    for k in missing:
+        if k in aliases or not sigs.get(k):
+            continue
+        crate = k.split("::", 1)[0]
+        cands = [u for u in unknown.values() if u["id"] not in taken and _crate_of(u) == crate and ptypes(u) == sigs[k]]
+        rivals = [m for m in missing if m != k and m not in aliases and sigs.get(m) == sigs[k] and m.split("::", 1)[0] == crate]
+        if len(cands) == 1 and not rivals:
+            aliases[k] = cands[0]["id"]
+            taken.add(cands[0]["id"])
     for k, uid in aliases.items():
         unknown.pop(uid, None)
         by_id[uid]["alias_of"] = k
